@@ -56,6 +56,7 @@ type Input struct {
 // place or by assigning the exported slice, optionally validated again.
 type hist struct {
 	validate, warm, copy, revalidate bool
+	inCode                           bool   // the object is built in code (buildDoc) instead of parsed from JSON
 	edit                             string // "", "inplace", "assign"
 }
 
@@ -66,6 +67,8 @@ func parseHist(h string) hist {
 		case "validated":
 			out.validate = true
 		case "unvalidated":
+		case "in-code":
+			out.inCode = true
 		case "warm":
 			out.warm = true
 		case "copy":
@@ -203,6 +206,7 @@ type QObs struct {
 	ViaSkip     string  `json:"viaSkip"`
 	CopyEqual   bool    `json:"copyEqual"`
 	Intact      bool    `json:"intact"`
+	Independent bool    `json:"independent"`
 }
 
 type Obs struct {
@@ -258,7 +262,56 @@ func docJSON(kind string, stmts []Stmt) []byte {
 	if err != nil {
 		panic(err)
 	}
+	// an EMPTY non-nil override map is dropped by `omitempty`: put `"override": {}` back
+	need := false
+	for _, st := range stmts {
+		if st.Override != nil && len(*st.Override) == 0 {
+			need = true
+		}
+	}
+	if !need {
+		return b
+	}
+	var generic map[string]any
+	if err := json.Unmarshal(b, &generic); err != nil {
+		panic(err)
+	}
+	tps := generic["trustPolicies"].([]any)
+	for i, st := range stmts {
+		if st.Override != nil && len(*st.Override) == 0 {
+			tps[i].(map[string]any)["signatureVerification"].(map[string]any)["override"] = map[string]any{}
+		}
+	}
+	b, err = json.Marshal(generic)
+	if err != nil {
+		panic(err)
+	}
 	return b
+}
+
+// buildDoc constructs the document object IN CODE instead of parsing it: slices are non-nil with
+// spare capacity (also the empty ones), the override map is non-nil exactly when the abstract
+// statement has one (also the empty one).
+func buildDoc(kind string, stmts []Stmt) *docObj {
+	roomy := func(l []string) []string {
+		out := make([]string, len(l), len(l)+4)
+		copy(out, l)
+		return out
+	}
+	if kind == "oci" {
+		d := &trustpolicy.OCIDocument{Version: "1.0", TrustPolicies: make([]trustpolicy.OCITrustPolicy, 0, len(stmts)+2)}
+		for _, s := range stmts {
+			d.TrustPolicies = append(d.TrustPolicies, trustpolicy.OCITrustPolicy{Name: s.Name, SignatureVerification: sigVerification(s),
+				TrustStores: roomy(s.Stores), TrustedIdentities: roomy(s.Identities), RegistryScopes: roomy(s.Scopes)})
+		}
+		return &docObj{o: d}
+	}
+	d := &trustpolicy.BlobDocument{Version: "1.0", TrustPolicies: make([]trustpolicy.BlobTrustPolicy, 0, len(stmts)+2)}
+	for _, s := range stmts {
+		d.TrustPolicies = append(d.TrustPolicies, trustpolicy.BlobTrustPolicy{Name: s.Name, SignatureVerification: sigVerification(s),
+			TrustStores: roomy(s.Stores), TrustedIdentities: roomy(s.Identities), GlobalPolicy: s.IsGlobal})
+	}
+	return &docObj{b: d}
 }
 
 func parseOCI(b []byte) *trustpolicy.OCIDocument {
@@ -314,45 +367,48 @@ func sameStmt(a, b Stmt) bool { return reflect.DeepEqual(a, b) }
 
 // ---- mutate everything reachable from a handed-out statement ---------------------------------
 
-func scramble(v reflect.Value) {
+func scramble(v reflect.Value) { scrambleWith(v, mutated) }
+
+// scrambleWith writes INTO everything reachable from v: every string becomes mark, every bool is
+// flipped, every slice is overwritten element-wise through its backing array and then appended to
+// (which writes into spare capacity when there is some), every non-nil map gets its keys changed,
+// deleted and a new key inserted (a nil map cannot be written to: the copy gets a map of its own).
+func scrambleWith(v reflect.Value, mark string) {
 	switch v.Kind() {
 	case reflect.Ptr:
 		if !v.IsNil() {
-			scramble(v.Elem())
+			scrambleWith(v.Elem(), mark)
 		}
 	case reflect.Struct:
 		for i := 0; i < v.NumField(); i++ {
 			if v.Field(i).CanSet() {
-				scramble(v.Field(i))
+				scrambleWith(v.Field(i), mark)
 			}
 		}
 	case reflect.String:
-		v.SetString(mutated)
+		v.SetString(mark)
 	case reflect.Bool:
 		v.SetBool(!v.Bool())
 	case reflect.Slice:
-		// element-wise through the existing backing array, then through append
 		for i := 0; i < v.Len(); i++ {
-			scramble(v.Index(i))
+			scrambleWith(v.Index(i), mark)
 		}
 		extra := reflect.New(v.Type().Elem()).Elem()
-		scramble(extra)
+		scrambleWith(extra, mark)
 		v.Set(reflect.Append(v, extra))
 	case reflect.Map:
 		if v.IsNil() {
-			// a nil map cannot be written to; give the copy a map of its own
 			v.Set(reflect.MakeMap(v.Type()))
 		} else {
-			// change, delete and add keys of the map the copy points to
 			for _, k := range v.MapKeys() {
 				nv := reflect.New(v.Type().Elem()).Elem()
-				scramble(nv)
+				scrambleWith(nv, mark)
 				v.SetMapIndex(k, nv)
 				v.SetMapIndex(k, reflect.Value{})
 			}
 		}
 		k := reflect.New(v.Type().Key()).Elem()
-		scramble(k)
+		scrambleWith(k, mark)
 		e := reflect.New(v.Type().Elem()).Elem()
 		if e.Kind() == reflect.String {
 			e.SetString("x")
@@ -589,8 +645,17 @@ func runCase(in Input, real func(q int) bool) Obs {
 	h := parseHist(in.History)
 	wildcardOnly := parseOCI(wildcardOnlyRaw)
 	rawBefore := raw
+	beforeStmts := in.Stmts
 	if in.Before != nil {
 		rawBefore = docJSON(in.Kind, *in.Before)
+		beforeStmts = *in.Before
+	}
+	// the object as first constructed: parsed from the JSON text, or built in code
+	base := func() *docObj {
+		if h.inCode {
+			return buildDoc(in.Kind, beforeStmts)
+		}
+		return parseDoc(in.Kind, rawBefore)
 	}
 	selKind := in.Kind
 	warmUp := func(sel func(kind, q string)) {
@@ -605,7 +670,7 @@ func runCase(in Input, real func(q int) bool) Obs {
 	// it and keeps the pointer), queried, and then the caller edits that very object
 	var e *e2e
 	{
-		vd := parseDoc(in.Kind, rawBefore)
+		vd := base()
 		if h.copy {
 			vd.validate()
 			vd = vd.structCopy()
@@ -644,7 +709,7 @@ func runCase(in Input, real func(q int) bool) Obs {
 	reversed := revDoc.selectName
 
 	// the object the direct selections (and the mutations) work on, for the whole case, with its history
-	doc := parseDoc(in.Kind, rawBefore)
+	doc := base()
 	if h.validate {
 		doc.validate()
 	}
@@ -688,7 +753,7 @@ func runCase(in Input, real func(q int) bool) Obs {
 		}
 	}
 	experiment := func(kind, q string) QObs {
-		o := QObs{CopyEqual: true, Intact: true, ReversedSel: reversed(kind, q)}
+		o := QObs{CopyEqual: true, Intact: true, Independent: true, ReversedSel: reversed(kind, q)}
 		got, handle, err := sel(kind, q)
 		if err != nil {
 			return o
@@ -697,8 +762,21 @@ func runCase(in Input, real func(q int) bool) Obs {
 		o.Selected = &name
 		o.CopyEqual = containsStmt(pristine, got)
 		scramble(reflect.ValueOf(handle))
-		again, _, err := sel(kind, q)
+		again, handle2, err := sel(kind, q)
 		o.Intact = err == nil && sameStmt(again, got)
+		if err == nil {
+			// the second copy is written into as well, with other values: what the caller holds
+			// through the first copy must not change
+			canonOf := func(h any) Stmt {
+				if p, ok := h.(*trustpolicy.OCITrustPolicy); ok {
+					return canonOCI(p)
+				}
+				return canonBlob(h.(*trustpolicy.BlobTrustPolicy))
+			}
+			before := canonOf(handle)
+			scrambleWith(reflect.ValueOf(handle2), "y-mutated")
+			o.Independent = sameStmt(canonOf(handle), before)
+		}
 		return o
 	}
 
@@ -782,6 +860,11 @@ var levelCfgs = []levelCfg{
 	{"strict", ov("expiry", "log", "authenticTimestamp", "log"), ""},
 	{"permissive", ov("revocation", "skip", "authenticity", "log"), ""},
 	{"audit", ov("revocation", "enforce"), ""},
+	// an EMPTY non-nil override map ("override": {} in the file): the effective level is the base level
+	{"strict", ov(), ""},
+	{"permissive", ov(), ""},
+	{"audit", ov(), "always"},
+	{"skip", ov(), ""},
 }
 
 func perms(n int) [][]int {
@@ -832,10 +915,19 @@ func pickCfgs(c *common.Ctx, n int, noSkipAt int) []levelCfg {
 	for {
 		idx := c.Rand.Perm(len(levelCfgs))[:n]
 		ok := true
+		var seen []trustpolicy.VerificationLevel
 		for k, i := range idx {
 			if k == noSkipAt && levelCfgs[i].level == "skip" {
 				ok = false
 			}
+			// pairwise different EFFECTIVE levels (a nil and an empty override give the same one)
+			e, _ := effLevel(sigVerification(Stmt{Level: levelCfgs[i].level, Override: levelCfgs[i].override}))
+			for _, o := range seen {
+				if reflect.DeepEqual(o, e) {
+					ok = false
+				}
+			}
+			seen = append(seen, e)
 		}
 		if ok {
 			out := make([]levelCfg, n)
@@ -1026,6 +1118,16 @@ func flush(c *common.Ctx) {
 		c.Count("kind=" + kind)
 		c.Count(fmt.Sprintf("document=%s validated=%v verifierAccepts=%v", j.label, o.Validated, o.VerifierAccepts))
 		c.Count("history=" + in.History)
+		for _, st := range in.Stmts {
+			switch {
+			case st.Override == nil:
+				c.Count("statement.override=nil")
+			case len(*st.Override) == 0:
+				c.Count("statement.override=empty-non-nil")
+			default:
+				c.Count("statement.override=non-empty")
+			}
+		}
 		c.Count(fmt.Sprintf("%s.statements=%d", kind, len(in.Stmts)))
 		if len(o.Queries) > 0 {
 			for q := range in.Queries {
@@ -1054,10 +1156,8 @@ func flush(c *common.Ctx) {
 
 func emitAllPerms(c *common.Ctx, kind, label string, stmts []Stmt, queries []string, realEvery int) {
 	for pi, p := range perms(len(stmts)) {
-		in := Input{Kind: kind, Stmts: make([]Stmt, len(stmts)), Queries: queries, History: "validated"}
-		if pi%2 == 1 {
-			in.History = "unvalidated"
-		}
+		in := Input{Kind: kind, Stmts: make([]Stmt, len(stmts)), Queries: queries,
+			History: []string{"validated", "unvalidated", "validated,in-code", "unvalidated,in-code"}[(pi+len(pending))%4]}
 		for i, j := range p {
 			in.Stmts[i] = stmts[j]
 		}
@@ -1438,6 +1538,8 @@ var editHistories = []string{
 	"validated,copy,edit-assign",
 	"validated,warm,copy,edit-inplace",
 	"unvalidated,warm,edit-assign",
+	"validated,in-code,edit-inplace",
+	"validated,in-code,warm,copy,edit-assign",
 }
 
 func emitHistories(c *common.Ctx, kind, label string, before, after []Stmt, queries []string, realEvery int) {
@@ -1460,7 +1562,7 @@ func Run(c *common.Ctx) error {
 	getWorld() // before the workers start
 	pending = nil
 	if c.Thorough() {
-		nOCI, nBlob, nBadOCI, nBadBlob, nEditOCI, nEditBlob, realEvery = 4500, 1000, 1500, 300, 1800, 450, 5
+		nOCI, nBlob, nBadOCI, nBadBlob, nEditOCI, nEditBlob, realEvery = 3200, 800, 1200, 240, 1350, 350, 5
 	}
 	// fixed documents that pin the near-miss shapes whatever the seed
 	fixed := [][]Stmt{
